@@ -49,7 +49,7 @@ for _v, _cls in (("categoric_rows", "formulae.terms.variable.Variable"),):
                           "forall(0, rows.shape[0], lambda i: forall(0, result[0].shape[1], lambda j: result[1][i, j] == result[0][rows[i], j]))"])
 
 REG.contract(L + "c06.bspline_rows", params=dict(transforms_c.BS_PARAMS, t=T + "BSpline", rows="arr1"), returns="any", tags=["C06", "C14"],
-             requires=["not t.params_set", "x.shape[0] >= 1"] + [c.format(n="x.shape[0]") for c in ROWS_OK],
+             requires=["not t.params_set", "x.shape[0] >= 1", "rows.shape[0] >= 1"] + [c.format(n="x.shape[0]") for c in ROWS_OK],
              modifies=["t.params_set", "t._intercept", "t._degree", "t._knots"], raises={"ValueError": None},
              ensures=["result[1].shape[0] == rows.shape[0]", "result[1].shape[1] == result[0].shape[1]",
                       "implies(df is not None, result[1].shape[1] == df)",
